@@ -150,6 +150,36 @@ func (c *concretiser) pick(pool []string) string {
 	return s
 }
 
+// related derives a fresh segment from a literal the case already uses: the literal extended by a documented
+// character and more, or a proper prefix of it.
+func (c *concretiser) related() string {
+	var lits []string
+	for _, a := range []string{"a", "b", "c", "v", "w"} {
+		if v, ok := c.m[a]; ok && v != "" {
+			lits = append(lits, v)
+		}
+	}
+	if len(lits) == 0 {
+		return ""
+	}
+	base := lits[c.r.Intn(len(lits))]
+	var cand []string
+	for _, suf := range []string{"-archived", ".v2", "_x", "0", "s", "-", ".", "~"} {
+		cand = append(cand, base+suf)
+	}
+	if rs := []rune(base); len(rs) > 1 {
+		cand = append(cand, string(rs[:len(rs)-1]))
+	}
+	for tries := 0; tries < 10; tries++ {
+		s := cand[c.r.Intn(len(cand))]
+		if !c.used[s] {
+			c.used[s] = true
+			return s
+		}
+	}
+	return ""
+}
+
 // seg maps an abstract segment to a concrete one, consistently within a case.
 func (c *concretiser) seg(a string) string {
 	if v, ok := c.m[a]; ok {
@@ -161,8 +191,16 @@ func (c *concretiser) seg(a string) string {
 		v = ""
 	case "a", "b", "c", "v", "w":
 		v = c.pick(litPool)
+		// names that extend one another ("users", "users-archived", "users.v2"): '-' and '.' sort before the '/' that
+		// follows a literal inside a pattern, '_' and letters after it
+		if rel := c.related(); rel != "" && c.r.Intn(3) == 0 {
+			v = rel
+		}
 	case "p", "q":
 		v = c.pick(freePool)
+		if rel := c.related(); rel != "" && c.r.Intn(5) == 0 {
+			v = rel // a free value that extends (or is a prefix of) one of the case's literals
+		}
 	case "7":
 		v = c.pick(intPool)
 	case "u":
